@@ -9,11 +9,14 @@ from concurrent.futures import ThreadPoolExecutor
 import vlib
 
 _enc = {}
+import threading
+_enc_lock = threading.Lock()
 
 
 def enc_record_exe(variant="hooks", alloc=False):
     key = (variant, alloc)
-    if key not in _enc:
+    with _enc_lock:
+      if key not in _enc:
         subprocess.check_call([sys.executable, os.path.join(vlib.ROOT, "tools/gen_cfg_fields.py")],
                               stdout=subprocess.DEVNULL)
         _enc[key] = vlib.build_harness("enc_record" + ("_led" if alloc else ""), ["enc_record.c"],
